@@ -17,6 +17,7 @@ import (
 	"verif/checks/c11"
 	"verif/checks/c12"
 	"verif/checks/c15"
+	"verif/checks/c16"
 	"verif/checks/c17"
 	"verif/engine/report"
 )
@@ -38,6 +39,7 @@ var checks = map[string]check{
 	"C11": {"model_checking", c11.Run, c11.Replay},
 	"C12": {"model_checking", c12.Run, c12.Replay},
 	"C15": {"exploration", c15.Run, c15.Replay},
+	"C16": {"exploration", c16.Run, c16.Replay},
 	"C17": {"exploration", c17.Run, c17.Replay},
 }
 
